@@ -47,13 +47,14 @@ ALLOC_CALLS = [
 
 
 class Site:
-    __slots__ = ("body", "fn", "kind", "term", "bb", "idx", "ln", "status", "how", "detail")
+    __slots__ = ("body", "fn", "kind", "term", "nterm", "bb", "idx", "ln", "status", "how", "detail")
 
-    def __init__(self, body, fn, kind, term, bb, idx, ln):
+    def __init__(self, body, fn, kind, term, bb, idx, ln, nterm=None):
         self.body = body
         self.fn = fn
         self.kind = kind
         self.term = term
+        self.nterm = nterm if nterm is not None else term
         self.bb = bb
         self.idx = idx
         self.ln = ln
@@ -62,8 +63,13 @@ class Site:
         self.detail = None
 
     @property
+    def file(self):
+        return self.body.file
+
+    @property
     def key(self):
-        return "%s|%s|%s" % (self.fn, self.kind, self.term)
+        """rename- and move-stable key: source file, construct kind, operand shape with variable names abstracted."""
+        return "%s|%s|%s" % (self.body.file, self.kind, self.nterm)
 
     def where(self):
         return "%s:%d" % (self.body.file, self.ln)
@@ -94,7 +100,9 @@ def scan_body(F, b):
             if ak in ("misaligned", "nullptr"):
                 continue
             term = ",".join(b.oname(o, 3) for o in t["ops"])
-            sites.append(Site(b, fn, "assert:" + ak, term, bi, 10**6, t["ln"]))
+            with b.alpha():
+                nterm = ",".join(b.oname(o, 3) for o in t["ops"])
+            sites.append(Site(b, fn, "assert:" + ak, term, bi, 10**6, t["ln"], nterm))
         elif t["k"] == "call":
             f = t["f"]
             if "ind" in f:
@@ -119,7 +127,9 @@ def scan_body(F, b):
                     continue
                 kind = "index:%s" % it
                 term = ",".join(b.oname(a, 3) for a in t["args"])
-                sites.append(Site(b, fn, kind, term, bi, 10**6, t["ln"]))
+                with b.alpha():
+                    nterm = ",".join(b.oname(a, 3) for a in t["args"])
+                sites.append(Site(b, fn, kind, term, bi, 10**6, t["ln"], nterm))
                 continue
             if kind == "op-trait":
                 # operator traits on primitive-like foreign types (e.g. Wrapping) — only when not resolved to a local impl
@@ -133,12 +143,16 @@ def scan_body(F, b):
                     kind = None
             if kind:
                 term = "%s(%s)" % (short_callee(nm, full), ",".join(b.oname(a, 3) for a in t["args"]))
-                sites.append(Site(b, fn, "call:" + kind, term, bi, 10**6, t["ln"]))
+                with b.alpha():
+                    nterm = "%s(%s)" % (short_callee(nm, full), ",".join(b.oname(a, 3) for a in t["args"]))
+                sites.append(Site(b, fn, "call:" + kind, term, bi, 10**6, t["ln"], nterm))
                 continue
             for rx, k, argi in ALLOC_CALLS:
                 if rx.search(nm):
                     term = "%s(%s)" % (short_callee(nm, full), ",".join(b.oname(a, 3) for a in t["args"]))
-                    s = Site(b, fn, "alloc:" + k, term, bi, 10**6, t["ln"])
+                    with b.alpha():
+                        nterm = "%s(%s)" % (short_callee(nm, full), ",".join(b.oname(a, 3) for a in t["args"]))
+                    s = Site(b, fn, "alloc:" + k, term, bi, 10**6, t["ln"], nterm)
                     s.detail = argi
                     sites.append(s)
                     break
@@ -391,21 +405,26 @@ def closure_creation_blocks(F, closure_body):
     return out
 
 
-def rendered_guards(b, bb):
+def rendered_guards(b, bb, norm=False):
     """[(rendered condition, truth)] for every two-way branch whose taken edge dominates bb."""
     import lib
     out = []
     for g, s2 in lib.taken_edges(b, bb):
         t = b.term(g)
+        if norm:
+            with b.alpha():
+                r = b.oname(t["d"], 5)
+        else:
+            r = b.oname(t["d"], 5)
         if t["dty"] == "bool":
             truth = (t["else"] == s2)
-            out.append((b.oname(t["d"], 5), truth))
+            out.append((r, truth))
         else:
             for v, x in t["tg"]:
                 if x == s2:
-                    out.append(("%s==%s" % (b.oname(t["d"], 5), v), True))
+                    out.append(("%s==%s" % (r, v), True))
             if t["else"] == s2:
-                out.append(("%s==other" % b.oname(t["d"], 5), True))
+                out.append(("%s==other" % r, True))
     return out
 
 
@@ -421,7 +440,7 @@ def verify_guards(F, s, guards):
                 return False, "closure creation site not found for %s" % b.path
             rx = re.compile(g["cond"])
             for pb, bb in places:
-                if not any(rx.search(c) and (("truth" not in g) or tr == g["truth"]) for c, tr in rendered_guards(pb, bb)):
+                if not any(rx.search(c) and (("truth" not in g) or tr == g["truth"]) for c, tr in rendered_guards(pb, bb, norm=True)):
                     return False, "no dominating branch on /%s/ (%s) in %s" % (g["cond"], g.get("truth", "any"), F.canon_of(pb))
         elif kind == "exists":
             fb = F.fn(g["fn"])
@@ -430,8 +449,11 @@ def verify_guards(F, s, guards):
             for body in F.with_closures(fb):
                 for bi in range(body.n):
                     t = body.term(bi)
-                    if t["k"] == "switch" and rx.search(body.oname(t["d"], 5)):
-                        found = True
+                    if t["k"] == "switch":
+                        with body.alpha():
+                            r = body.oname(t["d"], 5)
+                        if rx.search(r):
+                            found = True
             if not found:
                 return False, "%s no longer branches on /%s/" % (g["fn"], g["cond"])
         elif kind == "call-arg":
@@ -448,8 +470,11 @@ def verify_guards(F, s, guards):
             hit = False
             for c in fb.calls:
                 if rx.search(c.fn or "") or rx.search(c.name or ""):
-                    if g["arg"] < len(c.args) and mx.search(fb.oname(c.args[g["arg"]], 6)):
-                        hit = True
+                    if g["arg"] < len(c.args):
+                        with fb.alpha():
+                            r = fb.oname(c.args[g["arg"]], 6)
+                        if mx.search(r):
+                            hit = True
             if not hit:
                 return False, "no call /%s/ with argument %d matching /%s/ in %s" % (g["callee"], g["arg"], g["matches"], F.canon_of(fb))
         else:
@@ -481,17 +506,21 @@ def inventory(ctx, F, scope, table, rule="R-INV", kinds=None):
             stats["auto"] += 1
             ctx.obligations.append({"rule": rule, "key": s.key, "status": "discharged", "how": "AUTO: " + s.how, "where": s.where(), "nontrivial": True})
         else:
-            remaining[(s.fn, s.kind, s.term)].append(s)
-    # table lookup is by multiset: n sites with this signature were confirmed by hand
-    tab = {}
-    for fn, rows in table.items():
+            remaining[(s.body.file, s.kind, s.nterm)].append(s)
+    # table lookup is by multiset over (file, kind, name-abstracted term): n sites with this signature were confirmed
+    # by hand.  A row may carry machine-checkable guards; a site is matched to a row whose guards verify.
+    tab = defaultdict(list)
+    for fkey, rows in table.items():
         for r in rows:
-            tab[(fn, r["kind"], r["term"])] = r
+            tab[(r.get("file", fkey), r["kind"], r["nterm"] if "nterm" in r else r.get("term"))].append(dict(r, _left=r["n"]))
     for key, ss in sorted(remaining.items()):
-        r = tab.get(key)
-        allowed = r["n"] if r else 0
-        for i, s in enumerate(ss):
-            if i < allowed:
+        rows = tab.get(key, [])
+        for s in ss:
+            done = False
+            why = []
+            for r in rows:
+                if r["_left"] <= 0:
+                    continue
                 gok, gwhy = (True, "")
                 if r.get("guards"):
                     try:
@@ -499,20 +528,25 @@ def inventory(ctx, F, scope, table, rule="R-INV", kinds=None):
                     except Exception as e:
                         gok, gwhy = False, "guard spec could not be evaluated: %r" % e
                 if not gok:
-                    s.status = "open"
-                    stats["open"] += 1
-                    ctx.finding(rule, s.key, "the reviewed argument for %s site `%s` in %s no longer holds: %s (argument: %s)" % (s.kind, s.term, s.fn, gwhy, r["reason"]), s.where(),
-                                detail={"kind": s.kind, "term": s.term, "function": s.fn, "guard": gwhy})
+                    why.append((gwhy, r["reason"]))
                     continue
+                r["_left"] -= 1
                 s.status = "tabled"
                 s.how = r["reason"] + (" [guards re-verified]" if r.get("guards") else "")
                 stats["tabled"] += 1
                 stats["tabled_guarded"] += 1 if r.get("guards") else 0
                 ctx.obligations.append({"rule": rule, "key": s.key, "status": "discharged", "how": "TABLED: " + s.how, "where": s.where(), "nontrivial": True})
+                done = True
+                break
+            if done:
+                continue
+            s.status = "open"
+            stats["open"] += 1
+            if why:
+                ctx.finding(rule, s.key, "the reviewed argument for %s site `%s` in %s no longer holds: %s (argument: %s)" % (s.kind, s.term, s.fn, why[0][0], why[0][1]), s.where(),
+                            detail={"kind": s.kind, "term": s.term, "function": s.fn, "guard": why[0][0]})
             else:
-                s.status = "open"
-                stats["open"] += 1
                 ctx.finding(rule, s.key, "unreviewed %s site in %s: %s" % (s.kind, s.fn, s.term), s.where(),
-                            detail={"kind": s.kind, "term": s.term, "function": s.fn, "hint": s.how})
+                            detail={"kind": s.kind, "term": s.term, "nterm": s.nterm, "function": s.fn, "hint": s.how})
     stats["sites"] = len(sites)
     return sites, stats
